@@ -133,6 +133,16 @@ def faults(kind, R, eps, rng):
             line = [l for l in heads if l.split(' ')[0] == k][0]
             pos = rng.randint(0, len(heads))
             yield 'repeated_keyword_' + k, join(heads[:pos] + [line] + heads[pos:], trans)
+    # a single-valued declaration without a value (bare keyword line), or with two values
+    single = {'dfa': (), 'nfa': ('epsilon',), 'pda': ('epsilon',), 'tm': ('blank', 'accept', 'reject')}[kind]
+    for k in single:
+        have = [l for l in heads if l.split(' ')[0] == k]
+        if have:
+            yield 'keyword_without_value_' + k, join([k if l.split(' ')[0] == k else l for l in heads], trans)
+            yield 'keyword_with_two_values_' + k, join([l + ' ' + l.split(' ')[1] + 'x' if l.split(' ')[0] == k and len(l.split(' ')) == 2 else l for l in heads], trans)
+        else:
+            pos = rng.randint(0, len(heads))
+            yield 'keyword_without_value_' + k, join(heads[:pos] + [k] + heads[pos:], trans)
     # undeclared state used in a transition / as final / as initial
     ghost = 'ghost_state'
     if trans:
